@@ -1,6 +1,7 @@
 package main
 
 import (
+	"go/types"
 	"fmt"
 	"strings"
 
@@ -71,6 +72,18 @@ func runC10(c *Ctx) {
 			repoD = paramDesc(W, p)
 		}
 	}
+	// the optional skip interface: the module interface probed on the verifier with a comma-ok assertion
+	skipI, skipM := "ngo.?", "?"
+	for _, b := range W.Blocks {
+		for _, in := range b.Instrs {
+			if ta, ok := in.(*ssa.TypeAssert); ok && ta.CommaOk && desc(ta.X) == verD {
+				if it, ok := ta.AssertedType.Underlying().(*types.Interface); ok && it.NumMethods() > 0 {
+					skipI = abbrev(types.TypeString(ta.AssertedType, nil))
+					skipM = it.Method(0).Name()
+				}
+			}
+		}
+	}
 	var optsD string
 	for _, p := range W.Params {
 		if namedOf(p.Type()) == "ngo.VerifyOptions" {
@@ -85,12 +98,12 @@ func runC10(c *Ctx) {
 		okMax := labelHas(g, "GT("+optsD+".MaxSignatureAttempts,const:0)") || labelHas(g, "GE("+optsD+".MaxSignatureAttempts,const:1)")
 		c.Check(okNil, "precedence/nil-checks/"+name, "effect-site gate: the repository is used only with a non-nil verifier and repository", w.InstrPos(call), "guards: "+summarizeLabels(g, 6))
 		c.Check(okMax, "precedence/positive-limit/"+name, "effect-site gate: the repository is used only with MaxSignatureAttempts > 0", w.InstrPos(call), "guards: "+summarizeLabels(g, 6))
-		cut := fi.edgesMatching(matchOf(pre("F(ok(assert("+verD+",ngo.verifySkipper)))"), pre("F(call:invoke:ngo.verifySkipper.SkipVerify(", "#0)")))
+		cut := fi.edgesMatching(matchOf(pre("F(ok(assert("+verD+","+skipI+")))"), pre("F(call:invoke:"+skipI+"."+skipM+"(", "#0)")))
 		hit := fi.reachHit(entryState(), cut, blocksOf(call))
 		c.Check(len(cut) >= 2 && !hit, "precedence/skip-first/"+name, "effect-site gate (disjunctive): the repository is used only if the verifier is no skipper or SkipVerify answered false", w.InstrPos(call), "the repository can be touched although the policy level is skip")
 		// the SkipVerify error is fail-closed
-		if _, h := hasLabel(g, "EQ(call:invoke:ngo.verifySkipper.SkipVerify(", "#err,nil)"); !h {
-			cut2 := fi.edgesMatching(matchOf(pre("F(ok(assert("+verD+",ngo.verifySkipper)))"), pre("EQ(call:invoke:ngo.verifySkipper.SkipVerify(", "#err,nil)")))
+		if _, h := hasLabel(g, "EQ(call:invoke:"+skipI+"."+skipM+"(", "#err,nil)"); !h {
+			cut2 := fi.edgesMatching(matchOf(pre("F(ok(assert("+verD+","+skipI+")))"), pre("EQ(call:invoke:"+skipI+"."+skipM+"(", "#err,nil)")))
 			c.Check(!fi.reachHit(entryState(), cut2, blocksOf(call)), "precedence/skip-error/"+name, "a SkipVerify error is fail-closed", w.InstrPos(call), "the repository is used after a SkipVerify error")
 		}
 	}
@@ -111,7 +124,7 @@ func runC10(c *Ctx) {
 	c.Evals += s.States
 	var listExits []*ExitSum // success exits that went through the listing
 	for _, ex := range s.Exits {
-		if _, h := hasLabel(ex.Checked, "T(call:invoke:ngo.verifySkipper.SkipVerify(", "#0)"); h {
+		if _, h := hasLabel(ex.Checked, "T(call:invoke:"+skipI+"."+skipM+"(", "#0)"); h {
 			continue
 		}
 		if ex.Class != clSuccess {
@@ -411,7 +424,7 @@ func runC10(c *Ctx) {
 			// listing error other than the sentinel is fail-closed (disjunctive)
 		}
 		c.Check(ok, "result/success-exit", "the success exit requires the success flag and a non-zero counter and returns the resolved descriptor with the stored outcomes", site, detail)
-		okL, n, wit := exitsBlockedSel(fi, listExits, matchOf(pre("EQ("+descTailErr(list)+",nil)"), pre("T(call:errors.Is("+descTailErr(list)+",global:ngo.errDoneVerification))")))
+		okL, n, wit := exitsBlockedSel(fi, listExits, matchOf(pre("EQ("+descTailErr(list)+",nil)"), pre("T(call:errors.Is("+descTailErr(list)+",global:ngo.", "))")))
 		c.slot(okL && n >= 2, n, "result/listing-error", "a listing error other than the done sentinel fails verification", w.InstrPos(list), "success after a listing error", wit...)
 		_ = cellD
 	}
